@@ -42,8 +42,49 @@ def walk_expr(e):
             yield from walk_expr(x)
 
 
+def _jumps(stmts, fors, gotos, labels):
+    for s in stmts:
+        k = s["k"]
+        if k in ("goto", "gosub"):
+            gotos.append((s["l"], list(fors)))
+        elif k == "label":
+            labels[s["l"]] = list(fors)
+        elif k == "if":
+            for a in s["arms"]:
+                _jumps(a["body"], fors, gotos, labels)
+            _jumps(s["els"], fors, gotos, labels)
+        elif k == "select":
+            for c in s["cases"]:
+                _jumps(c["body"], fors, gotos, labels)
+            _jumps(s["els"], fors, gotos, labels)
+        elif k == "for":
+            _jumps(s["body"], fors + [s["id"]], gotos, labels)
+        elif k in ("while", "do"):
+            _jumps(s["body"], fors, gotos, labels)
+
+
+def jump_features(body):
+    """goto-out-of-for-into-enclosing-for: a GOTO leaves a FOR body and lands inside an
+    enclosing FOR body (the shape of the recorded register-frame leak)"""
+    gotos, labels = [], {}
+    _jumps(body, [], gotos, labels)
+    f = set()
+    for l, gstack in gotos:
+        if l in labels:
+            lstack = labels[l]
+            common = 0
+            while common < len(gstack) and common < len(lstack) and gstack[common] == lstack[common]:
+                common += 1
+            if len(gstack) > common and common >= 1 and len(lstack) == common:
+                f.add("goto-out-of-for-into-enclosing-for")
+    return f
+
+
 def of_prog(p):
     f = set()
+    f |= jump_features(p["main"])
+    for sp in p.get("subs", []):
+        f |= jump_features(sp["body"])
     for s in all_stmts(p):
         f.add("stmt:" + s["k"])
         if s["k"] == "for" and s.get("hasstep"):
